@@ -30,7 +30,7 @@ pub enum WP {
     Seq(Vec<usize>),
     ErrAt(usize, usize),
     Interrupted(usize),
-    /// one transient error at this position (0 WouldBlock, 1 TimedOut, 2 ConnectionReset, 3 Other), then the stream accepts again
+    /// one transient error at this position (kind index into ERR_KINDS), then the stream accepts again
     ErrOnce(usize, u8),
 }
 
@@ -54,6 +54,20 @@ impl C14 {
         C14::default()
     }
 }
+
+/// kinds of the injected transient write error
+const ERR_KINDS: [std::io::ErrorKind; 10] = [
+    std::io::ErrorKind::WouldBlock,
+    std::io::ErrorKind::TimedOut,
+    std::io::ErrorKind::ConnectionReset,
+    std::io::ErrorKind::Other,
+    std::io::ErrorKind::ConnectionAborted,
+    std::io::ErrorKind::BrokenPipe,
+    std::io::ErrorKind::NotConnected,
+    std::io::ErrorKind::UnexpectedEof,
+    std::io::ErrorKind::WriteZero,
+    std::io::ErrorKind::PermissionDenied,
+];
 
 fn payload(n: usize) -> Vec<u8> {
     (0..n).map(|i| ((i as u32 * 13 + 5) & 0xff) as u8).collect()
@@ -166,7 +180,7 @@ impl Prop for C14 {
                 let total = reference(layer, &payload(len)).len();
                 let positions: Vec<usize> = if total <= 40 { (0..total).collect() } else { vec![0, 1, 3, 4, 5, 7, total / 2, total - 1] };
                 for pos in positions {
-                    for kind in 0..4u8 {
+                    for kind in 0..ERR_KINDS.len() as u8 {
                         cs.push(Case { layer, len, plan: WP::ErrOnce(pos, kind), then: vec![] });
                         cs.push(Case { layer, len, plan: WP::ErrOnce(pos, kind), then: vec![(5, WP::All)] });
                     }
@@ -235,7 +249,7 @@ impl Prop for C14 {
         json!({"idx": idx, "case": self.cases[idx as usize]})
     }
     fn rule(&self) -> String {
-        "cases = (layer in {tpkt, x224, link}, payload length, write behaviour of the stream); lengths 0..70000 all enumerated on an accepting stream; structured messages (every one-field and several three-field shapes of the C18 message model: size-dependent, skippable, optional, nested fields) framed by tpkt::Client::write; short-write caps {1,2,3,4,5,7,8,1024} for every length <= 300 and every 16-bit boundary length; every composition of write sizes for frames <= 12 bytes; zero-length writes; an error injected at every byte position for lengths <= 64 and boundary lengths; EINTR once; one transient error (WouldBlock / TimedOut / ConnectionReset / Other) at every byte position after which the stream accepts again; sequences of 2 (3 in thorough) messages on the same layer object, the first one meeting an error before its first byte / after one byte / in mid-frame / on its last byte, one-byte writes, a zero-length write or EINTR, the later ones judged like a first message; plus 18 full real conversations over TLS (NLA on/off) with a transport accepting k bytes per write, k in {1,2,3,5,7,16,1024}, an irregular size sequence, and EINTR. Non-trivial: the stream deviates from accepting everything, or the length is within 8 of a 7/14/15/16-bit boundary or above the frame limit.".into()
+        "cases = (layer in {tpkt, x224, link}, payload length, write behaviour of the stream); lengths 0..70000 all enumerated on an accepting stream; structured messages (every one-field and several three-field shapes of the C18 message model: size-dependent, skippable, optional, nested fields) framed by tpkt::Client::write; short-write caps {1,2,3,4,5,7,8,1024} for every length <= 300 and every 16-bit boundary length; every composition of write sizes for frames <= 12 bytes; zero-length writes; an error injected at every byte position for lengths <= 64 and boundary lengths; EINTR once; one transient error of 10 kinds (WouldBlock, TimedOut, ConnectionReset, ConnectionAborted, BrokenPipe, NotConnected, UnexpectedEof, WriteZero, PermissionDenied, Other) at every byte position after which the stream accepts again; sequences of 2 (3 in thorough) messages on the same layer object, the first one meeting an error before its first byte / after one byte / in mid-frame / on its last byte, one-byte writes, a zero-length write or EINTR, the later ones judged like a first message; plus 18 full real conversations over TLS (NLA on/off) with a transport accepting k bytes per write, k in {1,2,3,5,7,16,1024}, an irregular size sequence, and EINTR. Non-trivial: the stream deviates from accepting everything, or the length is within 8 of a 7/14/15/16-bit boundary or above the frame limit.".into()
     }
     fn assumptions(&self) -> Vec<String> {
         vec![
@@ -280,6 +294,14 @@ impl Prop for C14 {
             };
             let r = tpkt::Client::new(Link::new(Stream::Raw(link))).write(msg);
             let delivered = sh.borrow().from_client.clone();
+            if bytes.len() > max_len(Layer::Tpkt) {
+                // too large for one frame: refused, nothing sent
+                return match r {
+                    Err(_) if delivered.is_empty() => Outcome::pass("structured-refused-oversize", true),
+                    Err(_) => Outcome::fail("oversize", "oversize-message-partially-sent", format!("{}: {} bytes emitted for a refused message", desc, delivered.len())),
+                    Ok(()) => Outcome::fail("oversize", "oversize-message-accepted", format!("{}: {} byte message accepted", desc, bytes.len())),
+                };
+            }
             let want = framing::tpkt(&bytes);
             return match r {
                 Ok(()) if delivered == want => Outcome::pass("structured-ok", true),
@@ -318,7 +340,7 @@ impl Prop for C14 {
                     WP::Seq(v) => WritePlan::Seq(v.clone()),
                     WP::ErrAt(pos, cap) => WritePlan::ErrAt { pos: start + *pos, cap: *cap },
                     WP::Interrupted(k) => WritePlan::InterruptedAt(*k),
-                    WP::ErrOnce(pos, kind) => WritePlan::ErrOnceAt { pos: start + *pos, kind: [std::io::ErrorKind::WouldBlock, std::io::ErrorKind::TimedOut, std::io::ErrorKind::ConnectionReset, std::io::ErrorKind::Other][*kind as usize % 4] },
+                    WP::ErrOnce(pos, kind) => WritePlan::ErrOnceAt { pos: start + *pos, kind: ERR_KINDS[*kind as usize % ERR_KINDS.len()] },
                 };
             }
             let res = match &mut obj {
